@@ -329,11 +329,51 @@ static void episode(bool thorough)
     }
 }
 
+/* ---- direct differential of the high-priority (reply) ring: the static functions of cs104_slave.c, operation by operation.
+ * model-free oracle HPQ_FAIL: what is dequeued is exactly what was accepted, in order ---- */
+static int hq_mode(bool thorough)
+{
+    struct sCS101_AppLayerParameters al = { 1, 1, 2, 0, 2, 3, 249 };
+    int episodes = thorough ? 6000 : 700; long n = 0; int hq_fail = 0; char hq_info[600] = "";
+    for (int e = 0; e < episodes; e++) {
+        int me = prng_below(4) ? 1 : prng_range(1, 3);
+        HighPriorityASDUQueue q = HighPriorityASDUQueue_create(me); fprintf(ops, "hq.new %d\n", me); fprintf(impl, "ok\n");
+        static uint8_t fifo[4096][256]; static int fifo_n[4096]; int head = 0, tail = 0;
+        int steps = prng_range(20, 160), sizeclass = prng_below(3);
+        for (int s = 0; s < steps; s++) {
+            char h[700];
+            if (prng_below(100) < (s % 40 < 25 ? 70 : 30)) {
+                int len = sizeclass == 0 ? prng_range(1, 20) : sizeclass == 1 ? prng_range(1, 60) : (prng_below(3) ? prng_range(1, 12) : prng_range(100, 243));
+                uint8_t pl[260]; for (int i = 0; i < len; i++) pl[i] = (uint8_t) prng_next();
+                CS101_ASDU a = CS101_ASDU_create(&al, false, CS101_COT_SPONTANEOUS, 0, 1, false, false); CS101_ASDU_setTypeID(a, (IEC60870_5_TypeID) pl[0]); CS101_ASDU_addPayload(a, pl, len);
+                int tot = a->asduHeaderLength + a->payloadSize; hexs(h, a->asdu, tot);
+                fprintf(ops, "hq.enq %s\n", h); fflush(ops);
+                bool ok = HighPriorityASDUQueue_enqueue(q, a);
+                if (ok && tail < 4096) { memcpy(fifo[tail], a->asdu, tot); fifo_n[tail++] = tot; }
+                CS101_ASDU_destroy(a); fprintf(impl, "%d", ok ? 1 : 0);
+            } else {
+                fprintf(ops, "hq.deq\n"); fflush(ops); int sz = 0; uint8_t* p = HighPriorityASDUQueue_getNextASDU(q, &sz);
+                if (p) { hexs(h, p, sz); fprintf(impl, "%s", h);
+                    if (head >= tail || fifo_n[head] != sz || memcmp(fifo[head], p, sz)) { if (!hq_fail++) snprintf(hq_info, sizeof hq_info, "at ops-file offset %ld: dequeued reply %.200s is not the oldest accepted reply (%d accepted, %d dequeued before)", (long) ftell(ops), h, tail, head); }
+                    head++; }
+                else { fprintf(impl, "none"); if (head < tail && !hq_fail++) snprintf(hq_info, sizeof hq_info, "at ops-file offset %ld: ring reports empty although %d accepted replies were not dequeued", (long) ftell(ops), tail - head); }
+            }
+            fprintf(impl, " | n=%d first=%ld last=%ld lib=%ld\n", q->entryCounter, q->entryCounter ? (long) (q->firstEntry - q->buffer) : -1L, q->entryCounter ? (long) (q->lastEntry - q->buffer) : -1L, q->entryCounter ? (long) (q->lastInBufferEntry - q->buffer) : -1L); n++;
+        }
+        HighPriorityASDUQueue_destroy(q);
+    }
+    fclose(ops); fclose(impl);
+    if (hq_fail) printf("HPQ_FAIL %s\n", hq_info);
+    printf("HISTO role=hp_ring ops=%ld episodes=%d fifo_violations=%d\n", n, episodes, hq_fail);
+    return 0;
+}
+
 int main(int argc, char** argv)
 {
     if (argc < 4) return 2;
     ops = fopen(argv[1], "w"); impl = fopen(argv[2], "w"); setvbuf(impl, NULL, _IOLBF, 0);
     bool thorough = !strcmp(argv[3], "thorough");
+    if (argc > 4 && !strcmp(argv[4], "hq")) { prng_seed(seed_from_env() + 4242); return hq_mode(thorough); }
     sim_write_hook = on_write;
     if (argc > 4) {     /* replay an operation file */
         FILE* in = fopen(argv[4], "r"); char line[4096];
